@@ -396,7 +396,29 @@ def direct_oracles(ctx, n_pairs):
         if kind == "IncrementalCell":
             prev = datetime.date.fromordinal(max(1, min(ev.toordinal(), ps.toordinal()) - rng.randint(1, 400)))
             kw["prev_evaluation_date"] = prev
+        dk = "date"
+        if it % 5 == 4 and kind != "IncrementalCell":   # (IncrementalCell compares its raw dates with prev first: refuses a mix)
+            # coordinates supplied as datetime.datetime / pandas.Timestamp / a datetime subclass WITH a time of day:
+            # the cell holds calendar dates, so its lags are those of the dates
+            import pandas as _pd
+
+            class _DT(datetime.datetime):
+                pass
+
+            dk = rng.choice(["datetime", "Timestamp", "subclass"])
+            mk = {"datetime": lambda d, h, m: datetime.datetime(d.year, d.month, d.day, h, m, 59),
+                  "Timestamp": lambda d, h, m: _pd.Timestamp(year=d.year, month=d.month, day=d.day, hour=h, minute=m, second=59),
+                  "subclass": lambda d, h, m: _DT(d.year, d.month, d.day, h, m, 59)}[dk]
+            kw["period_end"] = mk(pe, 23, 59)
+            kw["evaluation_date"] = mk(ev, rng.choice([0, 0, 12]), 0)
+            kw["period_start"] = mk(ps, 0, 0)
         c = getattr(bermuda_mod, kind)(**kw)
+        ctx.hist("oracle:unit-dispatch:coords-as-" + dk)
+        if dk != "date" and not all(type(x) is datetime.date for x in (c.period_start, c.period_end, c.evaluation_date)):
+            fails.append({"law": "dev-lag-units", "cell_class": kind, "period_start": str(ps), "period_end": str(pe),
+                          "evaluation_date": str(ev), "prev_evaluation_date": str(kw.get("prev_evaluation_date")),
+                          "coords_as": dk, "got": "stored " + type(c.period_end).__name__, "want": "datetime.date"})
+            break
         got2 = (c.dev_lag(ud), c.dev_lag("timedelta"), c.dev_lag(um), c.dev_lag())
         want2 = want + (want[2],)
         if kind == "IncrementalCell":
@@ -407,7 +429,7 @@ def direct_oracles(ctx, n_pairs):
         if got != want or got2 != want2 or type(got[0]) is not int or type(got2[0]) is not int:
             fails.append({"law": "dev-lag-units", "cell_class": kind, "period_start": str(ps), "period_end": str(pe),
                           "evaluation_date": str(ev), "prev_evaluation_date": str(kw.get("prev_evaluation_date")),
-                          "got": repr(got + got2), "want": repr(want + want2)})
+                          "coords_as": dk, "got": repr(got + got2), "want": repr(want + want2)})
             break
         q = rng.randint(1, 24)
         for unit, mult, std in [("month", 1, "month"), ("months", 1, "month"), ("quarter", 3, "month"),
@@ -662,6 +684,24 @@ def replay(ctx, data):
                   evaluation_date=D(data["evaluation_date"]), values={})
         if data["cell_class"] == "IncrementalCell":
             kw["prev_evaluation_date"] = D(data["prev_evaluation_date"])
+        ca = data.get("coords_as", "date")
+        if ca != "date":
+            import pandas as _pd
+
+            class _DT(datetime.datetime):
+                pass
+
+            mk = {"datetime": lambda d, h: datetime.datetime(d.year, d.month, d.day, h, 59, 59),
+                  "Timestamp": lambda d, h: _pd.Timestamp(year=d.year, month=d.month, day=d.day, hour=h, minute=59, second=59),
+                  "subclass": lambda d, h: _DT(d.year, d.month, d.day, h, 59, 59)}[ca]
+            pe0, ev0 = kw["period_end"], kw["evaluation_date"]
+            kw.update(period_end=mk(pe0, 23), evaluation_date=mk(ev0, 0), period_start=mk(kw["period_start"], 0))
+            c = getattr(bm, data["cell_class"])(**kw)
+            days = (ev0 - pe0).days
+            got = (c.dev_lag("day"), c.dev_lag("timedelta"), type(c.period_end) is datetime.date)
+            want = (days, datetime.timedelta(days=days), True)
+            print(f"{data['cell_class']} with {ca} coordinates {kw}: dev_lag day/timedelta, stored-as-date = {got}, want {want}")
+            return 0 if got == want else 1
         c = getattr(bm, data["cell_class"])(**kw)
         days = (c.evaluation_date - c.period_end).days
         got = (c.dev_lag("day"), c.dev_lag("timedelta"), c.dev_lag("month"),
